@@ -293,6 +293,15 @@ class Checker:
                             {'class': info.key, 'error': txt[-900:], 'xml': text1[:2500].decode('utf-8', 'replace')})
             return {'ok': False}
         x2 = _clock_blind(c14n(redoc2))
+        # writing the value again must not alter the XML document written before (the value read back refers to elements of that
+        # document: a writer that moves instead of copies takes them out of it - a message still queued for sending would change)
+        x1_after = _clock_blind(c14n(redoc))
+        ctx.count('rewrite.earlier_output_checked')
+        if x1_after != x1:
+            kind = _shrunk_parent_kind(x1, redoc)
+            ctx.witness(f'rewrite.earlier_output_altered.{kind}',
+                        f'{cname}: writing the value that was read back altered the XML document it was read from ({kind} content was moved out of it)',
+                        {'class': info.key, 'before': x1[:2000], 'after': x1_after[:2000], 'diff_at': _first_diff(x1, x1_after)})
         ctx.count('rewrite.compared')
         if x1 != x2:
             ctx.count('rewrite.differs')
@@ -470,6 +479,29 @@ def _write_literal(node, prop, names, literal):
 def _brief(x) -> str:
     s = repr(x)
     return s if len(s) <= 90 else s[:87] + '...'
+
+
+def _shrunk_parent_kind(before_text: str, after_doc) -> str:
+    """which kind of member lost children: 'Extension' (ext:Extension content) or 'AnyEtreeNode' (raw lxml element members)"""
+    try:
+        before = etree.fromstring(before_text.encode('utf-8') if isinstance(before_text, str) else before_text)
+    except Exception:  # noqa: BLE001
+        return 'unknown'
+
+    def walk(a, b):
+        ka = [c for c in a if isinstance(c.tag, str)]
+        kb = [c for c in b if isinstance(c.tag, str)]
+        if len(ka) != len(kb):
+            return a.tag
+        for x, y in zip(ka, kb):
+            r = walk(x, y)
+            if r:
+                return r
+        return None
+    tag = walk(before, after_doc)
+    if tag is None:
+        return 'unknown'
+    return 'Extension' if tag.endswith('}Extension') else 'AnyEtreeNode'
 
 
 def _first_diff(a: str, b: str) -> str:
